@@ -3,7 +3,7 @@ import struct
 from . import common as C, gen_chacha as G
 from .p_c01 import history as word_history
 
-LEAN_MODULE = ["Urandom.Props.C19", "Urandom.Props.C03T"]
+LEAN_MODULE = ["Urandom.Props.C19", "Urandom.Props.C03T", "Urandom.Props.C19R"]
 RULE = ("requests: for SplitMix64, Xoshiro256, Wyrand and ChaCha8/12/20: a random history before the save point (odd buffer offsets, after jumps and large fills, freshly seeded, "
         "injected buffer positions incl. all-zero buffers and out-of-range indices), serialise, restore, the same random continuation on original and restored, re-serialise both; "
         "JSON text, all outputs and both final texts are compared with the model; oracle: restored outputs == original outputs and identical final texts. "
